@@ -37,3 +37,9 @@ def dh_mixed_formats_exit0(line, verdict):
         and verdict.get("A_changed") is True
         and verdict.get("A_uniform") is False
     )
+
+
+@sig("ambiguous_rename_history")
+def ambiguous_rename_history(line, verdict):
+    """F17: false alarm after create -dr when two recorded paths share their content and one is gone"""
+    return line["op"]["op"] in ("create", "verify", "diff") and line["exit"] == 10 and verdict.get("A_ambig") is True
